@@ -9,10 +9,10 @@
         fn borrow_as(owned: &Self::Owned) -> Self;
     }
 
-    pub trait Region: Sized + Default {
-        type Owned;
+    pub trait Region: Sized + Default + 'static {
+        type Owned: 'static;
         type ReadItem: IntoOwned<Owned = Self::Owned>;
-        type Index: Copy;
+        type Index: Copy + 'static;
         /// Ghost: the abstract value of one stored item.
         type Val;
 
@@ -24,6 +24,8 @@
         spec fn rd(&self, i: Self::Index) -> Self::Val;
         /// Abstract value of a read item.
         spec fn abs(r: Self::ReadItem) -> Self::Val;
+        /// Abstract value of an owned item.
+        spec fn oabs(o: Self::Owned) -> Self::Val;
         /// Content and bookkeeping equal those of `Default::default()` (allocations are not part of it).
         spec fn fresh(&self) -> bool;
         /// Fewer than 2^64 - 1 entries in every internal container (so that counters cannot overflow).
